@@ -504,7 +504,21 @@ Nest(h, d, n) ==
     /\ nodes' = nodes + 1
     /\ UNCHANGED <<nmsg, nlist, built, rootTree, done>>
 
+\* SubCopy: a message under `tag` (opened after whatever its parent already holds) writes tag t itself and then copies a
+\* source message: fields the nested message already has are kept, the others are copied
+SubCopy(h, tag, t, d, s) ==
+    /\ Budget /\ InMsg /\ ~Misuse /\ ~nmsg[h] /\ tag \notin UsedTags
+    /\ LET m1 == BeginMessage(BeginField(m, tag))
+           w == WriteBytes(m1, EncodeScalar(Val(d)), d)
+           f == IF ~w.ok THEN w ELSE Field(w.m, t)
+           c == IF ~f.ok THEN f ELSE CopyFrom(f.m, EncodeT(Val(s)), 1)
+           r == IF ~c.ok THEN c ELSE UnNest(c.m, 1)
+       IN Step([op |-> "sub_copy", h |-> h, tag |-> tag, tag2 |-> t, val |-> d, src |-> EncodeT(Val(s))], r.m, RetOf(r.ok))
+    /\ nodes' = nodes + 1
+    /\ UNCHANGED <<nmsg, nlist, built, rootTree, done>>
+
 MacroStep ==
+    \/ \E mc \in Macros : \E h \in MsgHandles : mc.op = "sub_copy" /\ SubCopy(h, mc.tag, mc.tag2, mc.val, mc.src)
     \/ \E mc \in Macros : \E l \in ListHandles : mc.op = "elem_repeat" /\ ElemRepeat(l, mc.val, mc.n)
     \/ \E mc \in Macros : \E h \in MsgHandles : mc.op = "field_repeat" /\ FieldRepeat(h, mc.val, mc.tag, mc.n)
     \/ \E mc \in Macros : \E h \in MsgHandles : mc.op = "nest" /\ Nest(h, mc.val, mc.n)
